@@ -10,6 +10,9 @@ import (
 
 	sdk "github.com/cosmos/cosmos-sdk/types"
 
+	clienttypes "github.com/cosmos/ibc-go/v10/modules/core/02-client/types"
+	ibctm "github.com/cosmos/ibc-go/v10/modules/light-clients/07-tendermint"
+
 	providertypes "github.com/cosmos/interchain-security/v7/x/ccv/provider/types"
 )
 
@@ -183,4 +186,154 @@ func scEvidence(t *testing.T, w *World, variant int) {
 	// after the consumer is deleted nothing can be punished for it any more
 	w.submitEvidence(validEv(c0, "pk1"))
 	_ = time.Second
+}
+
+// ---------------------------------------------------------------------------------------
+// light-client-attack misbehaviour (C07)
+
+// MisbRec is the abstract misbehaviour record: two headers of the consumer chain at one height.
+type MisbRec struct {
+	C        string
+	ClientOK bool     // the message names the consumer's own client
+	ChainOK  bool     // headers carry the consumer's chain id
+	SameH    bool     // both headers at the same height
+	Old      bool     // height below the consumer's minimum evidence height
+	SigOK    bool     // commit signatures of header 2 are intact
+	Both     []string // key names of validators that sign BOTH headers (header 2 is built over exactly this subset)
+}
+
+func (m MisbRec) args() map[string]any {
+	return map[string]any{"c": m.C, "clientOk": m.ClientOK, "chainOk": m.ChainOK, "sameH": m.SameH, "old": m.Old, "sigOk": m.SigOK, "both": m.Both, "sender": "u1"}
+}
+
+func (w *World) misbehaviourTx(m MisbRec) (*TxSpec, error) {
+	c, lk := w.Chains[m.C], w.Links[m.C]
+	if c == nil || lk == nil {
+		return nil, fmt.Errorf("consumer chain not started")
+	}
+	trusted, ok := w.P.GetClientLatestHeight(lk.PClient).(clienttypes.Height)
+	if !ok {
+		return nil, fmt.Errorf("no client")
+	}
+	tvals, ok := c.TrustedValidators[trusted.RevisionHeight]
+	if !ok {
+		return nil, fmt.Errorf("no trusted validators at %d", trusted.RevisionHeight)
+	}
+	full := cmttypes.NewValidatorSet(tvals.Copy().Validators)
+	var sub []*cmttypes.Validator
+	for _, v := range full.Validators {
+		for _, k := range m.Both {
+			if w.N.keyName(v.Address) == k {
+				sub = append(sub, v.Copy())
+			}
+		}
+	}
+	if len(sub) == 0 {
+		return nil, fmt.Errorf("no signer")
+	}
+	alt := cmttypes.NewValidatorSet(sub)
+	chainID := c.ChainID
+	if !m.ChainOK {
+		chainID = "evil-1"
+	}
+	h1 := int64(trusted.RevisionHeight + 1)
+	h2 := h1
+	if !m.SameH {
+		h2 = h1 + 1
+	}
+	if m.Old {
+		// a height below the minimum evidence height cannot be built on the recorded client; use the lowest possible
+		h1, h2 = 1, 1
+	}
+	t0 := w.Now.Add(time.Minute)
+	hdr1 := c.CreateTMClientHeader(chainID, h1, trusted, t0, full, full, full, w.Signers)
+	hdr2 := c.CreateTMClientHeader(chainID, h2, trusted, t0.Add(10*time.Second), alt, alt, full, w.Signers)
+	if !m.SigOK {
+		hdr2.Commit.Signatures[0].Signature[5] ^= 0x20
+	}
+	client := lk.PClient
+	if !m.ClientOK {
+		client = "07-tendermint-77"
+	}
+	u1 := w.acct("u1")
+	msg := &providertypes.MsgSubmitConsumerMisbehaviour{Submitter: u1.Addr().String(), ConsumerId: consIDOf(m.C),
+		Misbehaviour: &ibctm.Misbehaviour{ClientId: client, Header1: hdr1, Header2: hdr2}}
+	return &TxSpec{Kind: "Misbehaviour", Args: m.args(), Signer: u1, Msgs: []sdk.Msg{msg}}, nil
+}
+
+func (w *World) submitMisbehaviour(m MisbRec) {
+	tx, err := w.misbehaviourTx(m)
+	if err != nil {
+		w.rec.emit("p", "Skip", map[string]any{"why": err.Error()}, nil, nil)
+		return
+	}
+	w.P.ProduceBlock([]TxSpec{*tx}, 5, nil)
+}
+
+func scMisbehaviour(t *testing.T, w *World, variant int) {
+	c0 := w.quickConsumer("mb-1", 1, []string{"v1", "v2", "v3"}, map[string]any{
+		"infr": map[string]any{"ds": map[string]any{"frac": []string{"0.050000000000000000", "0.200000000000000000"}[variant%2], "jail": 2000000000, "tomb": true}}})
+	c1 := w.quickConsumer("mc-1", 1, []string{"v2", "v4"}, nil)
+	w.Block("p", 5, nil, map[string]any{"a": "AssignKey", "v": "v2", "c": c0, "key": "k1"})
+	// wait for the next epoch so that the assigned key is in the set the chain starts with? (the genesis set was
+	// fixed at launch; the key change reaches the consumer through a VSC packet)
+	w.StartConsumer(c0)
+	w.StartConsumer(c1)
+	for _, c := range []string{c0, c1} {
+		if err := w.Connect(c); err != nil {
+			return
+		}
+		w.OpenChannel(c, w.defaultChanCfg(c))
+	}
+	w.Block("p", 5, nil)
+	w.Block("p", 5, nil)
+	w.Block(c0, 5, nil, map[string]any{"a": "RelayTo", "n": 5})
+	w.Block(c0, 5, nil)
+	w.Block(c0, 5, nil)
+	w.Block(c0, 5, nil)
+	w.keepAlive(c0)
+	w.keepAlive(c1)
+	keys := sortedKeys(w.Chains[c0].Engine)
+	all := keys
+	// a single validator holding more than a third of the trusted power can sign a conflicting header alone
+	one := keys[:1]
+	for _, k := range keys {
+		if w.Chains[c0].Engine[k] > w.Chains[c0].Engine[one[0]] {
+			one = []string{k}
+		}
+	}
+	good := MisbRec{C: c0, ClientOK: true, ChainOK: true, SameH: true, SigOK: true, Both: all}
+	for i, mut := range []func(*MisbRec){
+		func(m *MisbRec) { m.ClientOK = false }, func(m *MisbRec) { m.ChainOK = false }, func(m *MisbRec) { m.SameH = false },
+		func(m *MisbRec) { m.SigOK = false }, func(m *MisbRec) { m.Old = true }, func(m *MisbRec) { m.C = c1 },
+	} {
+		if (variant+i)%2 == 0 || variant < 3 {
+			m := good
+			mut(&m)
+			if m.C == c1 {
+				// c0's headers submitted for another consumer (with c0's client id)
+				tx, err := w.misbehaviourTx(good)
+				if err == nil {
+					msg := tx.Msgs[0].(*providertypes.MsgSubmitConsumerMisbehaviour)
+					msg.ConsumerId = consIDOf(c1)
+					a := good.args()
+					a["c"] = c1
+					a["clientOk"] = false
+					a["chainOk"] = false
+					tx.Args = a
+					w.P.ProduceBlock([]TxSpec{*tx}, 5, nil)
+				}
+				continue
+			}
+			w.submitMisbehaviour(m)
+		}
+	}
+	if variant%2 == 0 {
+		m := good
+		m.Both = one
+		w.submitMisbehaviour(m) // only the validators that signed both headers are punished
+	}
+	w.submitMisbehaviour(good)
+	w.submitMisbehaviour(good) // second time: everybody is tombstoned already
+	w.Block("p", 5, nil)
 }
